@@ -15,7 +15,9 @@ import (
 // workerMain: executed as `bin/c18 worker [keepdir]`. Reads one JSON job per line on stdin, answers one JSON
 // result per line on stdout. Runs inside its own scratch CWD (removed on exit).
 func workerMain() {
-	dir, err := os.MkdirTemp("", "verif-c18-w-")
+	// the master passes a scratch root that it removes itself, so nothing is left behind even when a generator
+	// kills the worker (log.Fatal / os.Exit skip the deferred cleanup)
+	dir, err := os.MkdirTemp(os.Getenv("C18_SCRATCH"), "verif-c18-w-")
 	if err != nil {
 		fmt.Fprintln(os.Stderr, "worker: cannot create scratch dir:", err)
 		os.Exit(3)
@@ -57,6 +59,8 @@ func workerMain() {
 	}
 }
 
+var scratchRoot string
+
 type worker struct {
 	cmd *exec.Cmd
 	in  io.WriteCloser
@@ -70,8 +74,8 @@ func startWorker() (*worker, error) {
 	}
 	cmd := exec.Command(exe, "worker")
 	cmd.Stderr = os.Stderr
-	cmd.Env = append(os.Environ(), "GOMAXPROCS=1", "GOGC=200")
-	cmd.Dir = os.TempDir()
+	cmd.Env = append(os.Environ(), "GOMAXPROCS=1", "GOGC=200", "C18_SCRATCH="+scratchRoot)
+	cmd.Dir = scratchRoot
 	in, err := cmd.StdinPipe()
 	if err != nil {
 		return nil, err
@@ -112,6 +116,13 @@ func (w *worker) stop() {
 // outcome does not depend on scheduling. A worker that dies (a generator calling os.Exit / a fatal
 // runtime error) is restarted and the job is recorded as a generator error.
 func runAll(jobs []Job, progress func(done int)) []Result {
+	root, err := os.MkdirTemp("", "verif-c18-")
+	if err != nil {
+		fmt.Fprintln(os.Stderr, "cannot create scratch dir:", err)
+		os.Exit(2)
+	}
+	scratchRoot = root
+	defer os.RemoveAll(root)
 	n := runtime.NumCPU()
 	if n > 16 {
 		n = 16
